@@ -3,10 +3,13 @@
 //!   verif-harness <sub-command> [--seed N] [--tier quick|thorough] [--out file] [--replay file]
 mod c03;
 mod c05;
+mod c08;
 mod c15;
 mod c16;
+mod c20;
 mod cek;
 mod driver;
+mod flatgen;
 mod gen;
 mod prng;
 mod report;
@@ -58,6 +61,8 @@ fn main() {
         "c05-budget" => c05::run(&ctx),
         "c16-shrink" => c16::shrink(&ctx),
         "c16-e2e" => c16::e2e(&ctx),
+        "c08-flat" => c08::run(&ctx),
+        "c20-flat" => c20::run(&ctx),
         other => {
             eprintln!("unknown sub-command {other}");
             std::process::exit(2);
